@@ -1465,6 +1465,8 @@ class Scene:
 
         # Get kwargs
         initial_guess = kwargs.get("initial_guess", "linear")
+        if initial_guess not in ["linear", "previous"]:
+            raise IOError("{0} is not a recognized initial guess. Must be 'linear' or 'previous'.".format(initial_guess))
 
         # Initialize timing and error handling
         self._FM = {}
